@@ -63,6 +63,47 @@ def _get_qiskit_gates():
     return {"ch": ch, "tdg": tdg, "id": id, "u2": u2, "sdg": sdg, "cu3": cu3}
 
 
+# number of parameters and of qubit arguments of the built-in gates and of
+# the gates of ``qelib1.inc``
+_GATE_SIGNATURES = {
+    "U": (3, 1),
+    "CX": (0, 2),
+    "u3": (3, 1),
+    "u2": (2, 1),
+    "u1": (1, 1),
+    "cx": (0, 2),
+    "id": (0, 1),
+    "x": (0, 1),
+    "y": (0, 1),
+    "z": (0, 1),
+    "h": (0, 1),
+    "s": (0, 1),
+    "sdg": (0, 1),
+    "t": (0, 1),
+    "tdg": (0, 1),
+    "rx": (1, 1),
+    "ry": (1, 1),
+    "rz": (1, 1),
+    "cz": (0, 2),
+    "cy": (0, 2),
+    "ch": (0, 2),
+    "ccx": (0, 3),
+    "crz": (1, 2),
+    "cu1": (1, 2),
+    "cu3": (3, 2),
+}
+
+
+def _check_arity(name, n_args, n_regs, expected):
+    """Raise if a gate is called with a wrong number of arguments."""
+    if (n_args, n_regs) != tuple(expected):
+        raise ValueError(
+            "QASM: gate {} takes {} parameters and {} qubits".format(
+                name, expected[0], expected[1]
+            )
+        )
+
+
 def _eval_param(expr):
     """
     Evaluate a parameter expression of a gate call: numbers, ``pi``,
@@ -430,6 +471,12 @@ class QasmProcessor:
 
         gate_name, args, regs = gate_call
         gate = self.qasm_gates[gate_name]
+        _check_arity(
+            gate_name,
+            len(args),
+            len(regs),
+            (len(gate.gate_args), len(gate.gate_regs)),
+        )
         args_map = {}
         regs_map = {}
 
@@ -757,6 +804,11 @@ class QasmProcessor:
             2 ** len(classical_controls) - 1
             (i.e. all classical controls are 1).
         """
+
+        if name in _GATE_SIGNATURES:
+            _check_arity(
+                name, len(com_args), len(com_regs), _GATE_SIGNATURES[name]
+            )
 
         if name == "CX":
             qc.add_gate(
